@@ -40,12 +40,13 @@ O_SUBP = [None, ["a"], ["a", "b"], ["chat", "superchat", "v2.chat"]]
 O_COOKIE = [None, "c=9; d=10"]
 O_HEADER = [None, ["X-One: 1", "X-Two: two words"], {"X-One": "1", "X-Two": "two words"}, {"X-One": "1", "X-None": None},
             {"X-One": "1", "X-Empty": "", "X-None": None, "X-Zero": "0"}, ["X-Empty: ", "X-Zero: 0"],
-            ["X-Dup: 1", "X-Other: o", "X-Dup: 2", "x-dup: 3"], {"Accept-Language": "en", "accept-language": "de"}]
+            ["X-Dup: 1", "X-Other: o", "X-Dup: 2", "x-dup: 3"], {"Accept-Language": "en", "accept-language": "de"},
+            ["X-Forwarded-Host: a.example", "X-Note: upstream host: unknown, origin: none, upgrade: no, connection: close"], {"X-Real-Host": "r", "X-Origin": "o", "X-Cookie": "c"}]
 O_CONN = [None, "Connection: keep-alive, Upgrade"]
 
 
 def bounds(tier):
-    return "576 URLs x 1536 option combinations%s; 3 successive connections for key freshness" % (" (full cross product)" if tier == "thorough" else " (quick: axes + diagonal)")
+    return "576 URLs x 2048 option combinations%s; 3 successive connections for key freshness" % (" (full cross product)" if tier == "thorough" else " (quick: axes + diagonal)")
 
 
 def urls():
@@ -434,7 +435,7 @@ def run_task(desc):
     elif part == "opts":
         for o in O:
             run(U[desc["url"]], o)
-        res["samples"].append({"url": make_url(U[desc["url"]]), "options": "all 1536 combinations"})
+        res["samples"].append({"url": make_url(U[desc["url"]]), "options": "all 2048 combinations"})
     elif part == "diag":
         for i, u in enumerate(U):
             run(u, O[(i * 7 + 3) % len(O)])
@@ -443,7 +444,7 @@ def run_task(desc):
         for u in U[desc["ulo"]:desc["uhi"]]:
             for o in O:
                 run(u, o)
-        res["samples"].append({"url": make_url(U[desc["ulo"]]), "options": "all 1536 combinations"})
+        res["samples"].append({"url": make_url(U[desc["ulo"]]), "options": "all 2048 combinations"})
     elif part == "app-callable":
         for form in ("list", "dict"):
             for lost in (0, 1, 2):
